@@ -575,7 +575,7 @@ namespace
     value select_array_scalar(runtime& runtime, value::cref left, value::cref right)
     {
         auto arr = left.data<d_array>()->value();
-        auto index = static_cast<int>(std::round(right.data<d_scalar, float>()));
+        auto index = util::round_to_int(right.data<d_scalar, float>());
 
         if (static_cast<int>(arr.size()) < index || index < 0)
         {
@@ -628,7 +628,7 @@ namespace
             runtime.__logmsg(err::ExpectedArrayTypeMissmatch(runtime.context_active().current_frame().diag_info_from_position(), 1, t_scalar(), arr[0].type()));
             return {};
         }
-        int start = static_cast<int>(std::round(arr[0].data<d_scalar, float>()));
+        int start = util::round_to_int(arr[0].data<d_scalar, float>());
         if (start < 0)
         {
             runtime.__logmsg(err::NegativeIndexWeak(runtime.context_active().current_frame().diag_info_from_position()));
@@ -648,15 +648,16 @@ namespace
                 runtime.__logmsg(err::ExpectedArrayTypeMissmatch(runtime.context_active().current_frame().diag_info_from_position(), 1, t_scalar(), arr[1].type()));
                 return {};
             }
-            int length = static_cast<int>(std::round(arr[1].data<d_scalar, float>()));
+            int length = util::round_to_int(arr[1].data<d_scalar, float>());
             if (length < 0)
             {
                 runtime.__logmsg(err::NegativeIndexWeak(runtime.context_active().current_frame().diag_info_from_position()));
                 runtime.__logmsg(err::ReturningEmptyArray(runtime.context_active().current_frame().diag_info_from_position()));
                 return value(std::make_shared<d_array>());
             }
-
-            return value(std::vector<value>(vec.begin() + start, start + length > static_cast<int>(vec.size()) ? vec.end() : vec.begin() + start + length));
+            // start <= size here; what is left behind start limits the length (start + length may not fit an int)
+            auto available = static_cast<int>(vec.size()) - start;
+            return value(std::vector<value>(vec.begin() + start, length > available ? vec.end() : vec.begin() + start + length));
         }
         else
         {
@@ -822,8 +823,8 @@ namespace
         {
             return {};
         }
-        auto from = (int)std::roundf((*right.data<d_array>())[0].data<d_scalar, float>());
-        auto to = (int)std::roundf((*right.data<d_array>())[1].data<d_scalar, float>());
+        auto from = util::round_to_int((*right.data<d_array>())[0].data<d_scalar, float>());
+        auto to = util::round_to_int((*right.data<d_array>())[1].data<d_scalar, float>());
 
         auto arr = left.data<d_array>();
         if (from > to)
